@@ -57,6 +57,11 @@ def sWrite (g : Bytes → Bytes) : N → Except Err (Unit × N)
   | .file d m => .ok ((), .file (g d) m)
   | .dir .. => .error .isdir
 
+/-- what a flush of a write descriptor stores: the modifier's bytes and the metadata it started from -/
+def sSetFile (d : Bytes) (m : Meta) : N → Except Err (Unit × N)
+  | .file _ _ => .ok ((), .file d m)
+  | .dir .. => .error .isdir
+
 def sRead : N → Except Err (Bytes × N)
   | .file d m => .ok (d, .file d m)
   | .dir .. => .error .isdir
